@@ -25,9 +25,13 @@ def run_order(d, gfa_text, chromosome_order, by_chrom, with_sequence=False, fnam
     else:
         core.write_text(path, gfa_text)
     outdir = os.path.join(d, sub)
+    if len(gfa_text) % 4 == 1 and not reuse_existing:
+        outdir = os.path.join(d, "results", "run1", sub)  # an output directory two levels below anything that exists
     if via == "cli":
-        argv = ["order_gfa"] + (["--chromosome_order", chromosome_order] if chromosome_order else []) + ["--outdir", outdir]
-        argv += (["--by-chrom"] if by_chrom else []) + (["--with-sequence"] if with_sequence else []) + [path]
+        opts = ["--outdir", outdir] + (["--by-chrom"] if by_chrom else []) + (["--with-sequence"] if with_sequence else [])
+        order_opt = ["--chromosome_order", chromosome_order] if chromosome_order else []
+        # the usage line puts the options first and GRAPH last; the order of the options is free
+        argv = ["order_gfa"] + (opts + order_opt if len(gfa_text) % 2 else order_opt + opts) + [path]
         res = core.cli(argv)
     else:
         res = core.call(run_order_gfa, path, outdir, by_chrom, chromosome_order, with_sequence)
